@@ -28,7 +28,7 @@ from ..recipes import build as B
 from ..recipes import ref as R
 
 LEVEL = "exploration"
-BUDGET_S = {"quick": 75, "thorough": 1500}
+BUDGET_S = {"quick": 420, "thorough": 1500}
 N_RANDOM = {"quick": 800, "thorough": 25000}
 BIG = 1e16
 RTOL = 1e-7
